@@ -44,17 +44,21 @@ TIE = {
               'MalVerif.Py.TieVisitorResolve', 'MalVerif.Py.TieVisitorClause', 'MalVerif.Py.TieVisitorExpr',
               'MalVerif.Py.TieVisitorTtc', 'MalVerif.Py.TieVisitorAssoc', 'MalVerif.Py.TieVisitorAssocs',
               'MalVerif.Py.TieVisitorMal', 'MalVerif.Py.TieVisitorEq', 'MalVerif.Py.TieVisitorTop',
-              'MalVerif.Py.TieVisitorPos', 'MalVerif.Py.TieVisitorStep', 'MalVerif.Py.TieVisitorDecls',
+              'MalVerif.Py.TieVisitorPos', 'MalVerif.Py.TieVisitorStepAux', 'MalVerif.Py.TieVisitorStepNode',
+              'MalVerif.Py.TieVisitorStepStages', 'MalVerif.Py.TieVisitorStep', 'MalVerif.Py.TieVisitorAsset',
+              'MalVerif.Py.TieVisitorCategory', 'MalVerif.Py.TieVisitorDecls',
               'MalVerif.Py.TieVisitorLex', 'MalVerif.Py.TieVisitorFile',
               'MalVerif.PropsGen.C04', 'MalVerif.PropsGen.C17'],
     'needs': {
         'C04': ['MalVerif.Py.TieVisitorTop', 'MalVerif.Py.TieVisitorTtc', 'MalVerif.Py.TieVisitorAssoc',
                 'MalVerif.Py.TieVisitorAssocs', 'MalVerif.Py.TieVisitorMal', 'MalVerif.Py.TieVisitorEq',
-                'MalVerif.Py.TieVisitorStep', 'MalVerif.Py.TieVisitorDecls', 'MalVerif.Py.TieVisitorFile',
-                'MalVerif.PropsGen.C04'],
+                'MalVerif.Py.TieVisitorStepNode', 'MalVerif.Py.TieVisitorStepStages', 'MalVerif.Py.TieVisitorStep',
+                'MalVerif.Py.TieVisitorAsset', 'MalVerif.Py.TieVisitorCategory', 'MalVerif.Py.TieVisitorDecls',
+                'MalVerif.Py.TieVisitorFile', 'MalVerif.PropsGen.C04'],
         'C17': ['MalVerif.Py.TieVisitorAssoc', 'MalVerif.Py.TieVisitorAssocs', 'MalVerif.Py.TieVisitorMal',
-                'MalVerif.Py.TieVisitorEq', 'MalVerif.Py.TieVisitorStep', 'MalVerif.Py.TieVisitorDecls',
-                'MalVerif.Py.TieVisitorFile', 'MalVerif.PropsGen.C04', 'MalVerif.PropsGen.C17'],
+                'MalVerif.Py.TieVisitorEq', 'MalVerif.Py.TieVisitorStepNode', 'MalVerif.Py.TieVisitorStepStages',
+                'MalVerif.Py.TieVisitorStep', 'MalVerif.Py.TieVisitorAsset', 'MalVerif.Py.TieVisitorCategory',
+                'MalVerif.Py.TieVisitorDecls', 'MalVerif.Py.TieVisitorFile', 'MalVerif.PropsGen.C04', 'MalVerif.PropsGen.C17'],
     },
     'sources': {
         'C04': 'language/compiler/mal_visitor.py: every method of malVisitor is translated (self.compiler.compile is a parameter), executed '
